@@ -184,7 +184,7 @@ def main():
             "source_commits": [],
             "add_only": True,
         },
-        "engines": [{"name": "vt-fuzz", "path": "vt/fuzz.py", "serves_properties": ["C08", "C18"],
+        "engines": [{"name": "vt-fuzz", "path": "vt/fuzz.py", "serves_properties": ["C05", "C06", "C08", "C18"],
                      "kind_free_text": "optional thorough-tier stage: atheris/libFuzzer with a structured byte decoder per property "
                                        "and coverage feedback from torchtt/*; same oracle as the random tiers"},
                     {"name": "vt", "path": "vt/", "serves_properties": sorted(CLAIMED),
